@@ -142,6 +142,32 @@ func init() {
 		}
 		fmt.Fprintf(&b, "/-- connectStandaloneSSE: the status that means that the server does not offer the standalone stream -/\ndef standaloneNotOffered : Nat := %d\n", notOffered)
 		c.Fact("clientstream.standalone_open_tests", openTests)
+		// Close: the guards under which no DELETE is sent
+		var closeGuards []string
+		if cl := c.Func("mcp", "streamableClientConn", "Close"); cl != nil {
+			ast.Inspect(cl.Body, func(n ast.Node) bool {
+				is, ok := n.(*ast.IfStmt)
+				if !ok || len(closeGuards) > 0 {
+					return true
+				}
+				for cur := is; cur != nil; {
+					closeGuards = append(closeGuards, norm(cur.Cond))
+					next, ok := cur.Else.(*ast.IfStmt)
+					if !ok {
+						if cur.Else != nil {
+							hasDelete := strings.Contains(c.Src(cur.Else), "http.MethodDelete")
+							closeGuards = append(closeGuards, fmt.Sprintf("else: delete=%v", hasDelete))
+						}
+						break
+					}
+					cur = next
+				}
+				return false
+			})
+		} else {
+			c.Errf("clientstream: Close not found")
+		}
+		c.Fact("clientstream.close_delete_guards", closeGuards)
 		b.WriteString("end Generated.ClientWrite\n")
 		c.Lean["ClientWriteGen"] = b.String()
 	})
